@@ -313,7 +313,11 @@ def discharge(o, timeout_ms=20000, use_cvc5=True):
     else:
         o.status = "unknown"
         o.detail = f"z3: {s.reason_unknown()}"
-        if use_cvc5:
+        m = model_by_concretisation(o.hyps, z3.Not(o.goal))
+        if m is not None:
+            o.status, o.model, o.backend = "failed", m, "z3 (inputs partly concretised)"
+            o.models = [m]
+        if use_cvc5 and o.status == "unknown":
             try:
                 txt = smt2_of(o.hyps, z3.Not(o.goal))
                 has_str = "String" in txt or "str." in txt
@@ -374,6 +378,57 @@ def _margin_constraints(goal, rel):
         else:
             out.append(z3.Or(a > b + m, a < b - m))
     return out
+
+
+def _input_consts(fs):
+    """Uninterpreted arithmetic constants named by the contract (no '!': not engine-generated)."""
+    seen, out = set(), {}
+    stack = list(fs)
+    while stack:
+        x = stack.pop()
+        i = x.get_id()
+        if i in seen:
+            continue
+        seen.add(i)
+        if z3.is_const(x) and x.decl().kind() == z3.Z3_OP_UNINTERPRETED and z3.is_arith(x):
+            out[x.decl().name()] = x
+        stack.extend(x.children())
+    return [out[k] for k in sorted(out)]
+
+
+def model_by_concretisation(hyps, neg_goal, tries=40, seed=0):
+    """Model search for non-linear obligations the solvers leave open: fix a random subset of the input
+    constants to simple rationals (which makes the rest linear) and re-check.  Only ever used to find a
+    counter-model for the native replay; never to discharge anything."""
+    import random
+
+    rnd = random.Random(seed)
+    consts = _input_consts(list(hyps) + [neg_goal])
+    pool = ["0", "1", "2", "3", "1/2", "3/5", "4/5", "10", "100", "7", "1/10", "25", "1000", "3/2"]
+    s = z3.Solver()
+    s.set("timeout", 1500)
+    for h in hyps:
+        s.add(h)
+    s.add(neg_goal)
+    for t in range(tries):
+        s.push()
+        frac_fixed = rnd.choice([0.4, 0.6, 0.8, 1.0])
+        for c in consts:
+            if rnd.random() < frac_fixed:
+                v = rnd.choice(pool)
+                if z3.is_int(c):
+                    if "/" in v:
+                        continue
+                    s.add(c == z3.IntVal(int(v)))
+                else:
+                    s.add(c == z3.RealVal(v))
+        r = s.check()
+        if r == z3.sat:
+            m = s.model()
+            s.pop()
+            return m
+        s.pop()
+    return None
 
 
 def robust_models(s, goal):
@@ -634,6 +689,8 @@ def _native_replay_one(contract, I, o, model, repo):
             resp = json.loads(p.stdout.splitlines()[-1])
             info["response"] = resp
             dmemo = {}
+            # same order as the native encoder (result first): back-references resolve
+            res_dec = dec(resp["result"], dmemo, I) if resp["outcome"] == "return" else None
             post_args = [dec(x, dmemo, I) for x in resp["args"]]
             post_kwargs = {k: dec(v, dmemo, I) for k, v in resp["kwargs"].items()}
             for pre, post in zip(a.get("args", []), post_args):
@@ -641,7 +698,7 @@ def _native_replay_one(contract, I, o, model, repo):
             for k, post in post_kwargs.items():
                 sync(sp.unwrap(a["kwargs"][k]), post)
             if resp["outcome"] == "return":
-                res = dec(resp["result"], dmemo, I)
+                res = res_dec
                 clauses = contract.ensures(S, a, sp.V(res))
             else:
                 exc = ExcVal(resp["exc"], (resp.get("msg", ""),))
